@@ -51,6 +51,7 @@ def option_sets(rng, n_random):
     # -d (graph drawing through an external program) is left out: none of the properties reads it
     sets = [[]] + [[o] for o in FILE_OPTS] + [["-e"], ["-a"], ["-f"]]
     sets += [["-f", "--stems-csv"], ["-f", "-p", "-b"], ["-f", "-c", "-j"]]   # gap detection with the outputs that use positions
+    sets += [["-a", "-f"], ["-a", "-b", "-j"]]
     sets += [list(p) for p in itertools.combinations(FILE_OPTS, 2)]
     for _ in range(n_random):
         s = [o for o in FILE_OPTS if rng.random() < 0.5]
@@ -63,7 +64,8 @@ def inputs(ctx):
     rng = ctx.rng
     tests = os.environ.get("RNAPOLIS_TESTS", "/repo/tests")
     out = []
-    for name in ["1A1T_1_B.cif", "1ATO.pdb"] + ([] if ctx.quick else ["1DFU_1_M-N.cif", "4qln.pdb", "1ehz-assembly-1.cif"]):
+    # 4qln.pdb: chain breaks and a pseudoknot (two members in the list of all dot-brackets)
+    for name in ["1A1T_1_B.cif", "1ATO.pdb", "4qln.pdb"] + ([] if ctx.quick else ["1DFU_1_M-N.cif", "1ehz-assembly-1.cif"]):
         p = os.path.join(tests, name)
         if os.path.exists(p):
             out.append(("corpus:" + name, open(p).read(), os.path.splitext(name)[1]))
@@ -136,10 +138,12 @@ def _one(job):
             s3 = read_3d_structure(f, None)
         bi = A.extract_base_interactions(s3, None)
         stk = A.find_stackings(s3, None)
+        fp = A.find_pairs(s3, None)[0]
         s2, dbs = A.extract_secondary_structure(s3, None, fg, alldb)
         letters = {r.full_name: r.one_letter_name for r in s3.residues}
         return {"csv": expected_csv(bi), "json": expected_json(bi),
                 "stackings": sorted((p.nt1.full_name, p.nt2.full_name, p.topology.value if p.topology is not None else None) for p in stk),
+                "pairs": sorted((p.nt1.full_name, p.nt2.full_name, p.lw.value) for p in fp),
                 "bpseq": s2.bpseq, "dot": s2.dotBracket, "ext": s2.extendedDotBracket, "all": list(dbs), "nstems": len(s2.stems),
                 "ninter": len(s2.interStemParameters or []), "letters": letters}
     with contextlib.redirect_stdout(io.StringIO()), contextlib.redirect_stderr(io.StringIO()):
@@ -157,9 +161,9 @@ def evaluate(ctx):
     osets = option_sets(ctx.rng, ctx.pick(6, 40))
     for tag, text, suffix in inputs(ctx):
         chosen = osets if (tag.startswith("fragment:model") or tag in ("two-stacked-residues", "fragment:chain-break") or not ctx.quick) else \
-            osets[:13] + ctx.rng.sample(osets[13:], 6)
+            osets[:15] + ctx.rng.sample(osets[15:], 6)
         if tag.startswith("corpus:") and ctx.quick:
-            chosen = osets[:13]
+            chosen = osets[:15]
         for flags in chosen:
             jobs.append((text, suffix, flags))
             tags.append(tag)
@@ -182,7 +186,8 @@ def judge(res, prop, runs):
             # only what the property speaks about is judged: a tool that ends abnormally is reported when an output this
             # property reads (JSON / CSV; for C07 also BPSEQ and stems CSV) was asked for and is not there
             res.count("cli:main-%s" % o["main"].split(":")[0])
-            need = [x for x in (("-c", "-j") if prop != "C07" else ("-b", "--stems-csv")) if x in flags and "file:" + x not in o]
+            reads = {"C07": ("-b", "--stems-csv"), "C06": ("-b",), "C16": ()}.get(prop, ("-c", "-j"))
+            need = [x for x in reads if x in flags and "file:" + x not in o]
             if need and not (prop == "C07" and need == ["--stems-csv"] and not lib["nstems"]):
                 res.fail("spec", "%s:cli:main-%s" % (prop, o["main"].split(":")[0] + ":" + o["main"].split(":")[-1]), inp,
                          "annotator.main ended with %s before writing %s, although the library annotates the file" % (o["main"], need))
@@ -211,6 +216,15 @@ def judge(res, prop, runs):
                 if got != lib["stackings"]:
                     res.fail("spec", "C04:cli:csv-stackings-differ-from-find_stackings", inp,
                              "CSV lists %d stackings, find_stackings %d" % (len(got), len(lib["stackings"])))
+        if prop == "C03" and js is not None:
+            got = sorted((_fn(p["nt1"]), _fn(p["nt2"]), p.get("lw")) for p in js.get("baseInteractions", {}).get("basePairs", []))
+            if got != lib["pairs"]:
+                res.fail("spec", "C03:cli:json-pairs-differ-from-find_pairs", inp,
+                         "JSON lists %d base pairs, find_pairs on the structure the reader returns %d; missing %s, extra %s"
+                         % (len(got), len(lib["pairs"]), [x for x in lib["pairs"] if x not in got][:3], [x for x in got if x not in lib["pairs"]][:3]))
+        if prop == "C16" and "-a" in flags and "-e" not in flags:
+            if "\n".join(lib["all"]).strip() not in o["stdout"]:
+                res.fail("spec", "C16:cli:printed-list-differs", inp, "the list printed with -a is not the library's list of all dot-brackets (in order)")
         if prop == "C11":
             if js is not None and js.get("baseInteractions") != lib["json"]:
                 res.fail("spec", "C11:cli:json-differs-from-lists", inp, "baseInteractions of the JSON file are not the library's interaction lists")
@@ -218,15 +232,15 @@ def judge(res, prop, runs):
                 k = next((i for i, (a, b) in enumerate(zip(rows, lib["csv"])) if a != b), min(len(rows), len(lib["csv"])))
                 res.fail("spec", "C11:cli:csv-differs-from-lists", inp, "row %d: file %r, lists %r" % (
                     k, rows[k] if k < len(rows) else None, lib["csv"][k] if k < len(lib["csv"]) else None))
-        if prop == "C07":
+        if prop in ("C07", "C06"):
             if "-b" in flags and o.get("file:-b") is not None and o["file:-b"].strip() != str(lib["bpseq"]).strip():
-                res.fail("spec", "C07:cli:bpseq-file-differs", inp, "BPSEQ file is not the library's BPSEQ")
+                res.fail("spec", prop + ":cli:bpseq-file-differs", inp, "BPSEQ file is not the library's BPSEQ")
             want = lib["ext"] if "-e" in flags else None
             if want is not None and want.strip() not in o["stdout"]:
-                res.fail("spec", "C07:cli:printed-notation-differs", inp, "extended notation printed by the tool is not the library's")
+                res.fail("spec", prop + ":cli:printed-notation-differs", inp, "extended notation printed by the tool is not the library's")
             if "-e" not in flags and "-a" not in flags and lib["dot"].strip() not in o["stdout"]:
-                res.fail("spec", "C07:cli:printed-notation-differs", inp, "dot-bracket printed by the tool is not the library's")
-            if "--stems-csv" in flags:
+                res.fail("spec", prop + ":cli:printed-notation-differs", inp, "dot-bracket printed by the tool is not the library's")
+            if prop == "C07" and "--stems-csv" in flags:
                 if lib["nstems"] and "file:--stems-csv" not in o:
                     res.fail("spec", "C07:cli:stems-csv-not-written", inp, "%d stems, no stems CSV" % lib["nstems"])
                 elif "file:--stems-csv" in o:
